@@ -35,7 +35,7 @@ CHECKS.update({
              tech="Lean 4 proof + same-precision correspondence on boundary atoms", ref="DESIGN.md §5 C17"),
  'C18': dict(cat='proof', text="Lean theorems for any class meeting a hook contract, any event shape, any R: log_prob shape and ValueError iff row mismatch, sample shapes with/without context, TypeError iff not a positive int (bool counts as int), batched sampling gives n draws per context row for every n, b (dividing or not), sample_and_log_prob shapes match, per-class contract instances; tied exactly on an exhaustive grid (18k cells) of classes x n x batch_size x context x event shapes. Known finding F15 (MADEMoG.sample without context).",
              tech="Lean 4 proof + exhaustive exact correspondence", ref="DESIGN.md §5 C18"),
- 'C19': dict(cat='other', text="PARTIAL. Proved: the dtype clause on a promotion-lattice model (results of ops over dimensioned float-d leaves plus weak leaves have dtype d); and, for the numeric clause, forward-error theorems in the standard model of floating-point arithmetic (the EXECUTED program with every primitive followed by a rounding of relative error <= u; that IEEE binary32/64 kernels satisfy it away from overflow/underflow is trusted): inner product, F.linear, point-wise affine element (both directions, log-det), chains of affine elements and general Lipschitz composition, LeakyReLU, Exp, LU/SVD log-det sums, the LULinear forward pass with given factors, and whole FLOWS of linear / LU / affine / LeakyReLU layers chained by the model's own composite loop (sup-norm error recursion, log-det running sum) -- two precisions differ by at most the two rounding budgets times the conditioning scale sum|x_i||w_i|. NOT a theorem: splines and other programs branching on rounded constants, overflow/NaN/finiteness; these are decided by executing the same Lean definitions in Float32 and Float against the float32 implementation and its float64 twin, plus result-dtype checks.",
+ 'C19': dict(cat='other', text="PARTIAL. Proved: the dtype clause on a promotion-lattice model (results of ops over dimensioned float-d leaves plus weak leaves have dtype d); and, for the numeric clause, forward-error theorems in the standard model of floating-point arithmetic (the EXECUTED program with every primitive followed by a rounding of relative error <= u; the model is realised in Lean by round-to-nearest-even to 24 / 53 significant bits, proved to satisfy it at every real and proved equal to any function meeting IEEE-754's roundTiesToEven specification on the normal range; trusted: torch's kernels are correctly rounded and no intermediate leaves the normal range): inner product, F.linear, point-wise affine element (both directions, log-det), chains of affine elements and general Lipschitz composition, LeakyReLU, Exp, LU/SVD log-det sums, the LULinear forward pass with given factors, and whole FLOWS of linear / LU / affine / LeakyReLU layers chained by the model's own composite loop (sup-norm error recursion, log-det running sum) -- two precisions differ by at most the two rounding budgets times the conditioning scale sum|x_i||w_i|. NOT a theorem: splines and other programs branching on rounded constants, overflow/NaN/finiteness; these are decided by executing the same Lean definitions in Float32 and Float against the float32 implementation and its float64 twin, plus result-dtype checks.",
              tech="Lean 4 proof (dtype clause) + Float32/Float model correspondence (numeric clause)", ref="DESIGN.md §5 C19, §8.1"),
 })
 CHECKS.update({
